@@ -96,25 +96,28 @@ theorem forIn_findSome {α ρ : Type} (body : α → Option ρ × Unit → Go.M 
       simp only [List.findSome?_cons, hs, pure_bind]
       exact ih (fun a' ha' => h a' (by simp [ha']))
 
-/-- `for k, el := range v { v[k], err = f(el); if err != nil { return R } }` -/
-theorem forIn_amapUpdate {ρ : Type} (g : Y → Option Y) (R : ρ) (junk : Y)
-    (body : String × Y → Option ρ × List (String × Y) → Go.M (ForInStep (Option ρ × List (String × Y))))
+/-- `for k, el := range v { v[k], err = f(el); if err != nil { return R } }`.  The loop state is
+`mk v` (the map and whatever else the body assigns, e.g. `err`, which is back at its start value
+after every successful iteration); the state on the failing exit is of no interest. -/
+theorem forIn_amapUpdate {σ ρ : Type} (mk : List (String × Y) → σ) (g : Y → Option Y) (R : ρ)
+    (junk : String × Y → List (String × Y) → σ)
+    (body : String × Y → Option ρ × σ → Go.M (ForInStep (Option ρ × σ)))
     (rest : List (String × Y))
-    (h : ∀ kv v, kv ∈ rest → body kv (none, v) = pure (match g kv.2 with
-      | some x => ForInStep.yield (none, amapSet v kv.1 x)
-      | none => ForInStep.done (some R, amapSet v kv.1 junk))) :
+    (h : ∀ kv v, kv ∈ rest → body kv (none, mk v) = pure (match g kv.2 with
+      | some x => ForInStep.yield (none, mk (amapSet v kv.1 x))
+      | none => ForInStep.done (some R, junk kv v))) :
     ∀ (A : List (String × Y)), ((A ++ rest).map (·.1)).Nodup →
-    ∃ s, forIn rest (none, A ++ rest) body = pure (match mapKVs g rest with
-      | some rest' => (none, A ++ rest')
+    ∃ s, forIn rest (none, mk (A ++ rest)) body = pure (match mapKVs g rest with
+      | some rest' => (none, mk (A ++ rest'))
       | none => (some R, s)) := by
   induction rest with
-  | nil => intro A _; exact ⟨[], by simp [mapKVs]⟩
+  | nil => intro A _; exact ⟨mk [], by simp [mapKVs]⟩
   | cons kv rest ih =>
     intro A hnd
     obtain ⟨k, el⟩ := kv
     rw [List.forIn_cons, h (k, el) _ (by simp)]
     cases hg : g el with
-    | none => exact ⟨amapSet (A ++ (k, el) :: rest) k junk, by simp [mapKVs, hg]⟩
+    | none => exact ⟨junk (k, el) (A ++ (k, el) :: rest), by simp [mapKVs, hg]⟩
     | some x =>
       have hk : k ∉ A.map (·.1) := by
         intro hm
@@ -130,24 +133,26 @@ theorem forIn_amapUpdate {ρ : Type} (g : Y → Option Y) (R : ρ) (junk : Y)
       simp only [mapKVs, hg]
       cases mapKVs g rest <;> simp
 
-/-- `for i, el := range v { v[i], err = f(el); if err != nil { return R } }` (state: `v`, then `i`) -/
-theorem forIn_listUpdate {ρ : Type} (g : Y → Option Y) (R : ρ) (junk : Y)
-    (body : Y → Option ρ × List Y × Nat → Go.M (ForInStep (Option ρ × List Y × Nat)))
+/-- `for i, el := range v { v[i], err = f(el); if err != nil { return R } }`; the loop state is
+`mk v i` -/
+theorem forIn_listUpdate {σ ρ : Type} (mk : List Y → Nat → σ) (g : Y → Option Y) (R : ρ)
+    (junk : Y → List Y → Nat → σ)
+    (body : Y → Option ρ × σ → Go.M (ForInStep (Option ρ × σ)))
     (rest : List Y)
-    (h : ∀ el v i, el ∈ rest → i < v.length → body el (none, v, i) = pure (match g el with
-      | some x => ForInStep.yield (none, v.set i x, i + 1)
-      | none => ForInStep.done (some R, v.set i junk, i))) :
+    (h : ∀ el v i, el ∈ rest → i < v.length → body el (none, mk v i) = pure (match g el with
+      | some x => ForInStep.yield (none, mk (v.set i x) (i + 1))
+      | none => ForInStep.done (some R, junk el v i))) :
     ∀ (A : List Y),
-    ∃ s, forIn rest (none, A ++ rest, A.length) body = pure (match mapList g rest with
-      | some rest' => (none, A ++ rest', (A ++ rest).length)
+    ∃ s, forIn rest (none, mk (A ++ rest) A.length) body = pure (match mapList g rest with
+      | some rest' => (none, mk (A ++ rest') (A ++ rest).length)
       | none => (some R, s)) := by
   induction rest with
-  | nil => intro A; exact ⟨([], 0), by simp [mapList]⟩
+  | nil => intro A; exact ⟨mk [] 0, by simp [mapList]⟩
   | cons el rest ih =>
     intro A
     rw [List.forIn_cons, h el _ _ (by simp) (by simp)]
     cases hg : g el with
-    | none => exact ⟨((A ++ el :: rest).set A.length junk, A.length), by simp [mapList, hg]⟩
+    | none => exact ⟨junk el (A ++ el :: rest) A.length, by simp [mapList, hg]⟩
     | some x =>
       obtain ⟨s, hs⟩ := ih (fun el v i hm => h el v i (by simp [hm])) (A ++ [x])
       refine ⟨s, ?_⟩
